@@ -6,10 +6,11 @@ import collections
 import random
 import traceback
 
-from amaranth import Module, Signal, Array
+from amaranth import Elaboratable, Module, Signal, Array
 from amaranth.lib import stream, wiring
 from amaranth.lib.wiring import In, Out
 from transactron.lib.stream import StreamSink, StreamSource, StreamModuleWrapper
+from transactron import TModule, Transaction
 from transactron.testing import SimpleTestCircuit, PysimSimulator
 from transactron.utils.dependencies import DependencyContext, DependencyManager
 
@@ -190,8 +191,85 @@ def run_wrapper(rec, rnd, cycles, case):
         sim.run()
 
 
+class Contended(Elaboratable):
+    """A chain source -> buffer -> sink (StreamModuleWrapper) whose write and read methods each have TWO competing callers (harness transactions):
+    one stream transfer must feed exactly one read and one write must put exactly one item on the stream."""
+
+    def __init__(self, width, depth):
+        self.width = width
+        self.dut = StreamModuleWrapper(StreamBuf(width, depth))
+        self.wreq, self.rreq = [Signal(name=f"wreq{i}") for i in range(2)], [Signal(name=f"rreq{i}") for i in range(2)]
+        self.wdata = [Signal(width, name=f"wdata{i}") for i in range(2)]
+        self.wrun, self.rrun = [Signal(name=f"wrun{i}") for i in range(2)], [Signal(name=f"rrun{i}") for i in range(2)]
+        self.rdata = [Signal(width, name=f"rdata{i}") for i in range(2)]
+
+    def elaborate(self, platform):
+        m = TModule()
+        m.submodules.dut = self.dut
+        for i in range(2):
+            with Transaction(name=f"W{i}").body(m, ready=self.wreq[i]):
+                self.dut.write(m, data=self.wdata[i])
+                m.d.comb += self.wrun[i].eq(1)
+            with Transaction(name=f"R{i}").body(m, ready=self.rreq[i]):
+                m.d.comb += [self.rdata[i].eq(self.dut.read(m).data), self.rrun[i].eq(1)]
+        return m
+
+
+def run_contended(rec, rnd, cycles, case):
+    width, depth = case["width"], case["depth"]
+    with DependencyContext(DependencyManager()):
+        circ = Contended(width, depth)
+        sim = PysimSimulator(circ, max_cycles=cycles + 80)
+        buf = circ.dut.module  # buf.o is the stream consumed by the wrapper's StreamSink, buf.i the one driven by its StreamSource
+
+        async def drv(ctx):
+            trig = ctx.tick().sample(*circ.wrun, *circ.rrun, *circ.rdata, buf.o.valid, buf.o.ready, buf.o.payload, buf.i.valid, buf.i.ready, buf.i.payload)
+            sent, got, on_stream_in, on_stream_out = [], [], [], []
+            n = 0
+            pw, pr = probs(rnd), probs(rnd)
+            for cyc in range(cycles + 60):
+                drain = cyc >= cycles
+                if cyc % 50 == 49:
+                    pw, pr = probs(rnd), probs(rnd)
+                vals = [((n + i) * 3 + 1) & ((1 << width) - 1) for i in range(2)]
+                for i in range(2):
+                    ctx.set(circ.wreq[i], (not drain) and rnd.random() < pw)
+                    ctx.set(circ.wdata[i], vals[i])
+                    ctx.set(circ.rreq[i], drain or rnd.random() < pr)
+                _, _, w0, w1, r0, r1, d0, d1, sv, sr, sp, ov, orr, op = await trig
+                det = {"cycle": cyc, "writers_run": [int(w0), int(w1)], "readers_run": [int(r0), int(r1)], "sink_valid_ready": [int(sv), int(sr)], "source_valid_ready": [int(ov), int(orr)]}
+                rec.check("contended:one_stream_transfer_feeds_exactly_one_read", int(r0) + int(r1) == int(bool(sv and sr)), case=case, detail=det)
+                rec.check("contended:at_most_one_write_per_cycle", int(w0) + int(w1) <= 1, case=case, detail=det)
+                if r0 and r1:
+                    rec.count("cycles_with_two_successful_reads")
+                if all(ctx.get(s) for s in circ.rreq) and sv:
+                    rec.count("cycles_with_two_readers_competing_for_one_item")
+                if all(ctx.get(s) for s in circ.wreq):
+                    rec.count("cycles_with_two_writers_competing")
+                for i, r in enumerate((r0, r1)):
+                    if r:
+                        got.append(int((d0, d1)[i]))
+                        rec.check("contended:read_returns_the_transferred_payload", got[-1] == int(sp), case=case, detail=dict(det, read=got[-1], payload=int(sp)))
+                for i, w in enumerate((w0, w1)):
+                    if w:
+                        sent.append(vals[i])
+                        n += 2
+                if ov and orr:
+                    on_stream_in.append(int(op))
+                rec.count("cycles")
+                rec.nontrivial(f"contended|d{depth}|w{int(w0)}{int(w1)}r{int(r0)}{int(r1)}")
+                if rec.viol_total:
+                    return
+            rec.check("contended:every_written_item_crosses_the_stream_once", on_stream_in == sent, case=case, detail={"written": len(sent), "on_stream": len(on_stream_in)})
+            rec.check("contended:every_item_read_exactly_once_in_order", got == sent, case=case, detail={"written": len(sent), "read": len(got), "first_diff": next((k for k, (a, b) in enumerate(zip(got, sent)) if a != b), None)})
+            rec.count("items", len(got))
+
+        sim.add_testbench(drv)
+        sim.run()
+
+
 def shards(tier, seed):
-    n = 36 if tier == "quick" else 900
+    n = 48 if tier == "quick" else 1200
     per = 3 if tier == "quick" else 15
     return [{"seed": seed, "first": i, "n": per, "cycles": 400 if tier == "quick" else 1500} for i in range(0, n, per)]
 
@@ -199,10 +277,10 @@ def shards(tier, seed):
 def run_shard(spec, rec):
     for i in range(spec["first"], spec["first"] + spec["n"]):
         rnd = random.Random(f"C29:{spec['seed']}:{i}")
-        kind = ["source", "sink", "wrapper"][i % 3]
-        case = {"adapter": kind, "width": rnd.choice([1, 4, 8, 16]), "depth": 1 + (i // 3) % 4, "history": i}
+        kind = ["source", "sink", "wrapper", "contended"][i % 4]
+        case = {"adapter": kind, "width": rnd.choice([1, 4, 8, 16]) if kind != "contended" else rnd.choice([8, 12, 16]), "depth": 1 + (i // 4) % 4, "history": i}
         try:
-            {"source": run_source, "sink": run_sink, "wrapper": run_wrapper}[kind](rec, rnd, spec["cycles"], case)
+            {"source": run_source, "sink": run_sink, "wrapper": run_wrapper, "contended": run_contended}[kind](rec, rnd, spec["cycles"], case)
         except Exception:
             if not rec.viol_total:
                 rec.check("constructs_and_simulates", False, case=case, detail=traceback.format_exc()[-1200:])
@@ -214,8 +292,10 @@ def run_shard(spec, rec):
 RULE = ("StreamSource: writes with unique payloads against a consumer whose ready is random (probabilities re-drawn every 50 cycles); monitor: valid and "
         "payload stable while stalled, write ready iff not valid or ready, transferred sequence == written sequence; StreamSink: protocol-abiding producer, "
         "read/peek ready iff valid, i.ready exactly in cycles where read executed, peek never transfers; StreamModuleWrapper around a harness-written "
-        "registered stream buffer of depth 1-4: order, no loss, bounded in-flight; distinct non-trivial case = (adapter, valid/ready/done combination, "
+        "registered stream buffer of depth 1-4: order, no loss, bounded in-flight; the same chain with two competing caller transactions on write and on read "
+        "(one stream transfer feeds exactly one read, every written item crosses the stream once, read sequence == written sequence); distinct non-trivial case = (adapter, valid/ready/done combination, "
         "occupancy)")
 ASSUMPTIONS = ["the wrapped stream module (harness-written buffer) itself obeys the protocol"]
-MINIMA = {"quick": {"cycles": 8000, "items": 2000, "stalled_cycles": 300, "peek_without_read_cycles": 200, "wrapper_full_cycles": 100, "distinct": 30},
+MINIMA = {"quick": {"cycles": 8000, "items": 2000, "stalled_cycles": 300, "peek_without_read_cycles": 200, "wrapper_full_cycles": 100, "cycles_with_two_readers_competing_for_one_item": 200,
+                    "cycles_with_two_writers_competing": 200, "distinct": 30},
           "thorough": {"cycles": 800000, "distinct": 40}}
